@@ -364,6 +364,47 @@ class unknown_2d_ops:
                         yield {"chunks": chunks, "rows": r, "cols": c, "op": op}
 
 
+@contract("dask_array/_overlap.py::sliding_window_view", spec="over-a-layout-drifting-input", props=["C02", "C03"])
+class swv_over_drifting_input:
+    """a sliding-window view taken of an array whose optimised layout differs from its advertised one (itself a native
+    sliding-window reduction over single-element blocks) computes NumPy's result (known finding F46: sliding_window_view
+    passes chunk literals of its input's advertised layout to map_overlap and does not pin that layout, so the optimised
+    graph fails with 'adjust_chunks specified with N blocks'; pinning it would switch off the native kernel)"""
+    bounded_only = True
+    params = {"n": "const", "chunks": "const", "w1": "const", "w2": "const"}
+    scope = "1-D data of length 10..14, element-wise and small blocks, inner window 2..3, outer window 2..3"
+
+    def real():
+        return lambda: None
+
+    def call(fn, n, chunks, w1, w2):
+        import numpy as np
+        import dask_array as da
+        swv = np.lib.stride_tricks.sliding_window_view
+        a = np.arange(float(n)) * 3 % 7
+        x = da.sliding_window_view(da.from_array(a, chunks=chunks), w1).sum(-1)
+        y = da.sliding_window_view(x, w2).max(-1)
+        want = swv(swv(a, w1).sum(-1), w2).max(-1)
+        try:
+            return ("computed", np.asarray(y.compute()), want)
+        except Exception as e:
+            return ("raised", f"{type(e).__name__}: {str(e)[:80]}", want)
+
+    def requires(n, chunks, w1, w2):
+        return True
+
+    def ensures(result, n, chunks, w1, w2):
+        kind, got, want = result
+        return {"nested-window-computes-numpy": kind == "computed" and _same(got, want)}
+
+    def domain(tier, rng):
+        for n in (10, 14):
+            for ch in (1, 2, 5):
+                for w1 in (2, 3):
+                    for w2 in (2, 3):
+                        yield {"n": n, "chunks": ch, "w1": w1, "w2": w2}
+
+
 @contract("dask_array/manipulation/_squeeze.py::squeeze", spec="unknown-axis", props=["C28"])
 class squeeze_unknown_axis:
     """squeeze() without an axis on an array with an unknown-length axis gives NumPy's shape or refuses (known finding F45:
